@@ -45,6 +45,7 @@ type (
 		Set    Expr
 		Lo, Hi Expr
 		Body   Expr
+		Triggers []Expr // optional explicit triggers: forall x T {t1, t2} :: body (alternatives)
 	}
 	EIn struct { // k in dom(m)  |  k in setexpr
 		K   Expr
@@ -305,6 +306,16 @@ func (p *parser) quant() Expr {
 		}
 	} else {
 		q.Type = p.typeExpr()
+	}
+	if p.isOp("{") {
+		p.next()
+		for !p.isOp("}") {
+			q.Triggers = append(q.Triggers, p.expr())
+			if p.isOp(",") {
+				p.next()
+			}
+		}
+		p.next()
 	}
 	p.expectOp("::")
 	q.Body = p.expr()
